@@ -1,1 +1,979 @@
-//! shared two-endpoint network simulation
+//! Shared two-endpoint simulation of the connection layer (0.6 with DDNet token, 0.6 without token,
+//! 0.7). The harness owns the clock, both unidirectional networks and the randomness.
+
+use crate::util::Warnings;
+use crate::{burn, guard, set_fuel, unlimited_fuel};
+use libtw2_net::connection as c6;
+use libtw2_net::connection7 as c7;
+use libtw2_net::{Timeout, Timestamp};
+use serde::{Deserialize, Serialize};
+use std::collections::HashSet;
+use std::convert::Infallible;
+
+pub const CALL_FUEL: i64 = 50_000;
+pub const CONNECT_PACKET: &[u8; 12] = b"\x10\x00\x00\x01TKEN\xff\xff\xff\xff";
+pub const CONNECT_PACKET_NO_TOKEN: &[u8; 4] = b"\x10\x00\x00\x01";
+
+// ---------------------------------------------------------------------------
+// Callback owned by the harness
+
+#[derive(Clone, Debug, Default)]
+pub struct SimCb {
+    pub now_us: u64,
+    pub out: Vec<Vec<u8>>,
+    /// scripted answers for secure_random (consumed first), then a deterministic stream
+    pub script: Vec<[u8; 4]>,
+    pub rnd_state: u64,
+    pub time_calls: u64,
+    pub random_calls: u64,
+}
+
+impl SimCb {
+    pub fn new(seed: u64) -> SimCb {
+        SimCb {
+            now_us: 1_000_000,
+            out: Vec::new(),
+            script: Vec::new(),
+            rnd_state: seed,
+            time_calls: 0,
+            random_calls: 0,
+        }
+    }
+    fn fill(&mut self, buffer: &mut [u8]) {
+        burn();
+        self.random_calls += 1;
+        if !self.script.is_empty() {
+            let v = self.script.remove(0);
+            for (i, b) in buffer.iter_mut().enumerate() {
+                *b = v[i % 4];
+            }
+            return;
+        }
+        for b in buffer.iter_mut() {
+            // splitmix64
+            self.rnd_state = self.rnd_state.wrapping_add(0x9E3779B97F4A7C15);
+            let mut z = self.rnd_state;
+            z = (z ^ (z >> 30)).wrapping_mul(0xBF58476D1CE4E5B9);
+            z = (z ^ (z >> 27)).wrapping_mul(0x94D049BB133111EB);
+            *b = (z ^ (z >> 31)) as u8;
+        }
+    }
+}
+
+macro_rules! impl_cb {
+    ($m:ident) => {
+        impl $m::Callback for SimCb {
+            type Error = Infallible;
+            fn secure_random(&mut self, buffer: &mut [u8]) {
+                self.fill(buffer)
+            }
+            fn send(&mut self, buffer: &[u8]) -> Result<(), Infallible> {
+                burn();
+                self.out.push(buffer.to_vec());
+                Ok(())
+            }
+            fn time(&mut self) -> Timestamp {
+                burn();
+                self.time_calls += 1;
+                Timestamp::from_usecs_since_epoch(self.now_us)
+            }
+        }
+    };
+}
+impl_cb!(c6);
+impl_cb!(c7);
+
+// ---------------------------------------------------------------------------
+// Protocol abstraction
+
+#[derive(Clone, Debug, PartialEq, Eq, Hash, Serialize, Deserialize)]
+pub enum Ev {
+    Connless(Vec<u8>),
+    Chunk(Vec<u8>, bool),
+    Ready,
+    Disconnect(Vec<u8>),
+}
+
+#[derive(Clone, Copy, Debug, PartialEq, Eq)]
+pub enum SendResult {
+    Ok,
+    TooLong,
+}
+
+pub trait Proto: 'static {
+    type Conn;
+    const NAME: &'static str;
+    const IS7: bool;
+    fn new() -> Self::Conn;
+    fn connect(c: &mut Self::Conn, cb: &mut SimCb);
+    fn disconnect(c: &mut Self::Conn, cb: &mut SimCb, reason: &[u8]);
+    fn send(c: &mut Self::Conn, cb: &mut SimCb, data: &[u8], vital: bool) -> SendResult;
+    fn send_connless(c: &mut Self::Conn, cb: &mut SimCb, data: &[u8]) -> SendResult;
+    fn flush(c: &mut Self::Conn, cb: &mut SimCb);
+    fn tick(c: &mut Self::Conn, cb: &mut SimCb);
+    fn needs_tick(c: &Self::Conn) -> Timeout;
+    fn feed(c: &mut Self::Conn, cb: &mut SimCb, data: &[u8]) -> (Vec<Ev>, Vec<String>);
+    fn reset(c: &mut Self::Conn);
+    fn clone_conn(c: &Self::Conn) -> Self::Conn;
+    fn fingerprint(c: &Self::Conn) -> String;
+    fn summary(c: &Self::Conn) -> (&'static str, usize, usize, bool);
+}
+
+macro_rules! impl_proto {
+    ($name:ident, $m:ident, $label:expr, $is7:expr) => {
+        pub struct $name;
+        impl Proto for $name {
+            type Conn = $m::Connection;
+            const NAME: &'static str = $label;
+            const IS7: bool = $is7;
+            fn new() -> Self::Conn {
+                $m::Connection::new()
+            }
+            fn connect(c: &mut Self::Conn, cb: &mut SimCb) {
+                match c.connect(cb) {
+                    Ok(()) => {}
+                    Err(e) => match e {},
+                }
+            }
+            fn disconnect(c: &mut Self::Conn, cb: &mut SimCb, reason: &[u8]) {
+                match c.disconnect(cb, reason) {
+                    Ok(()) => {}
+                    Err(e) => match e {},
+                }
+            }
+            fn send(c: &mut Self::Conn, cb: &mut SimCb, data: &[u8], vital: bool) -> SendResult {
+                match c.send(cb, data, vital) {
+                    Ok(()) => SendResult::Ok,
+                    Err($m::Error::TooLongData) => SendResult::TooLong,
+                    Err($m::Error::Callback(e)) => match e {},
+                }
+            }
+            fn send_connless(c: &mut Self::Conn, cb: &mut SimCb, data: &[u8]) -> SendResult {
+                match c.send_connless(cb, data) {
+                    Ok(()) => SendResult::Ok,
+                    Err($m::Error::TooLongData) => SendResult::TooLong,
+                    Err($m::Error::Callback(e)) => match e {},
+                }
+            }
+            fn flush(c: &mut Self::Conn, cb: &mut SimCb) {
+                match c.flush(cb) {
+                    Ok(()) => {}
+                    Err(e) => match e {},
+                }
+            }
+            fn tick(c: &mut Self::Conn, cb: &mut SimCb) {
+                match c.tick(cb) {
+                    Ok(()) => {}
+                    Err(e) => match e {},
+                }
+            }
+            fn needs_tick(c: &Self::Conn) -> Timeout {
+                c.needs_tick()
+            }
+            fn feed(c: &mut Self::Conn, cb: &mut SimCb, data: &[u8]) -> (Vec<Ev>, Vec<String>) {
+                let mut buf = [0u8; 2048];
+                let mut warn = Warnings::new();
+                let mut evs = Vec::new();
+                {
+                    let (iter, res) = c.feed(cb, &mut warn, data, &mut buf[..]);
+                    match res {
+                        Ok(()) => {}
+                        Err(e) => match e {},
+                    }
+                    for e in iter {
+                        burn();
+                        evs.push(match e {
+                            $m::ReceiveChunk::Connless(d) => Ev::Connless(d.to_vec()),
+                            $m::ReceiveChunk::Connected(d, v) => Ev::Chunk(d.to_vec(), v),
+                            $m::ReceiveChunk::Ready => Ev::Ready,
+                            $m::ReceiveChunk::Disconnect(r) => Ev::Disconnect(r.to_vec()),
+                        });
+                    }
+                }
+                (evs, warn.0)
+            }
+            fn reset(c: &mut Self::Conn) {
+                c.reset()
+            }
+            fn clone_conn(c: &Self::Conn) -> Self::Conn {
+                c.verif_clone()
+            }
+            fn fingerprint(c: &Self::Conn) -> String {
+                c.verif_fingerprint()
+            }
+            fn summary(c: &Self::Conn) -> (&'static str, usize, usize, bool) {
+                c.verif_summary()
+            }
+        }
+    };
+}
+impl_proto!(P6, c6, "0.6", false);
+impl_proto!(P7, c7, "0.7", true);
+
+// ---------------------------------------------------------------------------
+// Operations
+
+#[derive(Clone, Debug, PartialEq, Eq, Hash, Serialize, Deserialize)]
+pub enum Op {
+    Connect,
+    Send { side: u8, vital: bool, len: u16, fill: u8 },
+    Flush { side: u8 },
+    Tick { side: u8 },
+    Advance { dt: u8 },
+    Deliver { dir: u8, k: u16 },
+    Drop { dir: u8, k: u16 },
+    Dup { dir: u8, k: u16 },
+    DeliverAll { dir: u8 },
+    /// n small vital chunks, each flushed, delivered in order, then acknowledged
+    Burst { side: u8, n: u16 },
+    Disconnect { side: u8, reason_len: u8 },
+    SendConnless { side: u8, len: u16 },
+    /// both endpoints back to unconnected (if possible), network cleared: a new session
+    Reset,
+}
+
+pub const DT_US: [u64; 10] = [
+    0, 1_000, 499_000, 500_000, 501_000, 999_000, 1_000_000, 1_001_000, 5_000_000, 100,
+];
+
+#[derive(Clone, Debug)]
+pub struct Flight {
+    pub data: Vec<u8>,
+    /// vital chunks the sender had submitted when this was put on the wire
+    pub sender_vital_at_send: u64,
+    /// vital chunks the receiver side had submitted when this was put on the wire
+    pub receiver_vital_at_send: u64,
+    pub serial: u64,
+    pub touched: bool,
+}
+
+#[derive(Clone, Copy, Debug, PartialEq, Eq)]
+pub enum Mode6 {
+    Token,
+    NoToken,
+}
+
+#[derive(Default, Clone, Debug)]
+pub struct Stats {
+    pub ops_applied: u64,
+    pub ops_skipped: u64,
+    pub vital_delivered: u64,
+    pub nonvital_delivered: u64,
+    pub ready: u64,
+    pub drops: u64,
+    pub dups: u64,
+    pub reorders: u64,
+    pub faults_on_vital: u64,
+    pub handshake_lost: u64,
+    pub resend_datagrams: u64,
+    pub wrapped: bool,
+    pub max_in_flight: usize,
+    pub too_long: u64,
+    pub disconnects: u64,
+    pub sessions: u64,
+    pub datagrams: u64,
+    pub connless_delivered: u64,
+    pub max_unacked: usize,
+}
+
+pub struct Failure {
+    pub oracle: &'static str,
+    pub msg: String,
+}
+
+pub type StepResult = Result<(), Failure>;
+
+fn fail<T>(oracle: &'static str, msg: String) -> Result<T, Failure> {
+    Err(Failure { oracle, msg })
+}
+
+/// One observed datagram handed to the send callback.
+#[derive(Clone, Debug)]
+pub struct SentDatagram {
+    pub side: usize,
+    pub data: Vec<u8>,
+}
+
+pub struct Sim<P: Proto> {
+    pub ends: [P::Conn; 2],
+    pub cb: [SimCb; 2],
+    pub now_us: u64,
+    pub net: [Vec<Flight>; 2],
+    pub strip_token: bool,
+    pub submitted_vital: [Vec<Vec<u8>>; 2],
+    pub submitted_nonvital: [HashSet<Vec<u8>>; 2],
+    pub submitted_connless: [HashSet<Vec<u8>>; 2],
+    /// vital chunks from side s delivered to the application on side 1-s
+    pub delivered_vital: [usize; 2],
+    pub ready_seen: u32,
+    pub acceptor_sent: bool,
+    pub connect_called: bool,
+    pub serial: u64,
+    pub send_serial: u64,
+    pub stats: Stats,
+    /// every datagram handed to the send callback since the last `take_sent`
+    pub sent_log: Vec<SentDatagram>,
+    pub log_sent: bool,
+    /// largest chunk length generated by Send ops (lengths are clamped to this)
+    pub max_len: usize,
+    /// skip sends while this many vital chunks are unacknowledged (assumption of C01)
+    pub max_unacked: usize,
+    /// skip queueing when this many chunks are queued without a flush
+    pub max_queued: usize,
+    pub session_vital_base: [usize; 2],
+    pub events: [Vec<Ev>; 2],
+    pub warnings: Vec<String>,
+}
+
+impl<P: Proto> Sim<P> {
+    pub fn new(seed: u64, strip_token: bool) -> Sim<P> {
+        Sim {
+            ends: [P::new(), P::new()],
+            cb: [SimCb::new(seed ^ 0xA), SimCb::new(seed ^ 0xB)],
+            now_us: 1_000_000,
+            net: [Vec::new(), Vec::new()],
+            strip_token,
+            submitted_vital: [Vec::new(), Vec::new()],
+            submitted_nonvital: [HashSet::new(), HashSet::new()],
+            submitted_connless: [HashSet::new(), HashSet::new()],
+            delivered_vital: [0, 0],
+            ready_seen: 0,
+            acceptor_sent: false,
+            connect_called: false,
+            serial: 0,
+            send_serial: 0,
+            stats: Stats::default(),
+            sent_log: Vec::new(),
+            log_sent: false,
+            max_len: 1023,
+            max_unacked: 500,
+            max_queued: 200,
+            session_vital_base: [0, 0],
+            events: [Vec::new(), Vec::new()],
+            warnings: Vec::new(),
+        }
+    }
+
+    pub fn state(&self, side: usize) -> &'static str {
+        P::summary(&self.ends[side]).0
+    }
+    pub fn online(&self, side: usize) -> bool {
+        self.state(side) == "Online"
+    }
+
+    /// Run one library call on `side` under fuel and panic capture, then collect what it sent.
+    pub fn call<R>(
+        &mut self,
+        side: usize,
+        what: &str,
+        f: impl FnOnce(&mut P::Conn, &mut SimCb) -> R,
+    ) -> Result<R, Failure> {
+        self.cb[side].now_us = self.now_us;
+        set_fuel(CALL_FUEL);
+        let r = {
+            let (conn, cb) = (&mut self.ends[side], &mut self.cb[side]);
+            guard(|| f(conn, cb))
+        };
+        unlimited_fuel();
+        let r = match r {
+            Ok(r) => r,
+            Err(p) => {
+                let oracle = if p.fuel { "termination" } else { "panic" };
+                return fail(oracle, format!("{} {} on side {}: {}", P::NAME, what, side, p));
+            }
+        };
+        self.collect(side)?;
+        Ok(r)
+    }
+
+    fn collect(&mut self, side: usize) -> StepResult {
+        let out = std::mem::take(&mut self.cb[side].out);
+        for mut d in out {
+            self.stats.datagrams += 1;
+            if self.log_sent {
+                self.sent_log.push(SentDatagram {
+                    side,
+                    data: d.clone(),
+                });
+            }
+            if side == 1 {
+                self.acceptor_sent = true;
+            }
+            if self.strip_token && side == 0 && d == CONNECT_PACKET {
+                d = CONNECT_PACKET_NO_TOKEN.to_vec();
+            }
+            self.serial += 1;
+            let f = Flight {
+                data: d,
+                sender_vital_at_send: self.submitted_vital[side].len() as u64,
+                receiver_vital_at_send: self.submitted_vital[1 - side].len() as u64,
+                serial: self.serial,
+                touched: false,
+            };
+            self.net[side].push(f);
+            self.stats.max_in_flight = self.stats.max_in_flight.max(self.net[side].len());
+        }
+        Ok(())
+    }
+
+    /// Enforce "no datagram is delayed across 1024 sequence numbers" (with margin).
+    fn expire(&mut self) {
+        for dir in 0..2 {
+            let sv = self.submitted_vital[dir].len() as u64;
+            let rv = self.submitted_vital[1 - dir].len() as u64;
+            self.net[dir]
+                .retain(|f| sv - f.sender_vital_at_send < 400 && rv - f.receiver_vital_at_send < 400);
+        }
+    }
+
+    fn make_payload(&mut self, side: usize, vital: bool, len: usize, fill: u8) -> Vec<u8> {
+        self.send_serial += 1;
+        let mut tag = vec![0xC0 | side as u8 | if vital { 2 } else { 0 }];
+        tag.extend_from_slice(&(self.send_serial as u32).to_be_bytes());
+        tag.extend_from_slice(&[fill, fill ^ 0x55, 0x7e]);
+        let mut p: Vec<u8> = Vec::with_capacity(len);
+        for i in 0..len {
+            p.push(if i < tag.len() { tag[i] } else { fill.wrapping_add((i as u8).wrapping_mul(if fill & 1 == 0 { 0 } else { 1 })) });
+        }
+        p
+    }
+
+    pub fn do_send(&mut self, side: usize, vital: bool, len: usize, fill: u8) -> Result<bool, Failure> {
+        if !self.online(side) {
+            return Ok(false);
+        }
+        let (_, unacked, queued, _) = P::summary(&self.ends[side]);
+        if (vital && unacked >= self.max_unacked) || queued >= self.max_queued {
+            return Ok(false);
+        }
+        let len = len.min(self.max_len);
+        let payload = self.make_payload(side, vital, len, fill);
+        let r = self.call(side, "send", |c, cb| P::send(c, cb, &payload, vital))?;
+        match r {
+            SendResult::Ok => {
+                if vital {
+                    self.submitted_vital[side].push(payload);
+                    if self.submitted_vital[side].len() - self.session_vital_base[side] > 1024 {
+                        self.stats.wrapped = true;
+                    }
+                } else {
+                    self.submitted_nonvital[side].insert(payload);
+                }
+                let (_, unacked, _, _) = P::summary(&self.ends[side]);
+                self.stats.max_unacked = self.stats.max_unacked.max(unacked);
+            }
+            SendResult::TooLong => self.stats.too_long += 1,
+        }
+        Ok(true)
+    }
+
+    pub fn deliver(&mut self, dir: usize, k: usize) -> StepResult {
+        if k >= self.net[dir].len() {
+            return Ok(());
+        }
+        if k != 0 {
+            self.stats.reorders += 1;
+            self.note_fault(dir, k);
+        }
+        let f = self.net[dir].remove(k);
+        self.feed(1 - dir, &f.data)
+    }
+
+    fn datagram_carries_vital_or_handshake(&self, dir: usize, k: usize) -> (bool, bool) {
+        let d = &self.net[dir][k].data;
+        classify::<P>(d)
+    }
+
+    fn note_fault(&mut self, dir: usize, k: usize) {
+        let (vital, handshake) = self.datagram_carries_vital_or_handshake(dir, k);
+        if vital {
+            self.stats.faults_on_vital += 1;
+        }
+        if handshake {
+            self.stats.handshake_lost += 1;
+        }
+    }
+
+    pub fn feed(&mut self, side: usize, data: &[u8]) -> StepResult {
+        let data = data.to_vec();
+        let (evs, warns) = self.call(side, "feed", |c, cb| P::feed(c, cb, &data))?;
+        self.warnings.extend(warns);
+        self.process_events(side, evs)
+    }
+
+    fn process_events(&mut self, side: usize, evs: Vec<Ev>) -> StepResult {
+        let from = 1 - side;
+        for e in evs {
+            match &e {
+                Ev::Chunk(data, true) => {
+                    let idx = self.delivered_vital[from];
+                    match self.submitted_vital[from].get(idx) {
+                        Some(exp) if exp == data => {
+                            self.delivered_vital[from] += 1;
+                            self.stats.vital_delivered += 1;
+                        }
+                        Some(exp) => {
+                            // classify for the message
+                            let pos = self.submitted_vital[from].iter().position(|s| s == data);
+                            return fail(
+                                "vital_prefix",
+                                format!(
+                                    "{}: side {} received a vital chunk that is not the next submitted one: expected #{} ({} bytes, {:02x?}..), got {} bytes {:02x?}.. which is {}",
+                                    P::NAME,
+                                    side,
+                                    idx,
+                                    exp.len(),
+                                    &exp[..exp.len().min(9)],
+                                    data.len(),
+                                    &data[..data.len().min(9)],
+                                    match pos {
+                                        Some(p) if p < idx => format!("submitted chunk #{} (duplicate delivery)", p),
+                                        Some(p) => format!("submitted chunk #{} (skipped {} chunks)", p, p - idx),
+                                        None => "not a submitted chunk at all (altered)".to_string(),
+                                    }
+                                ),
+                            );
+                        }
+                        None => {
+                            return fail(
+                                "vital_prefix",
+                                format!(
+                                    "{}: side {} received vital chunk #{} but only {} were submitted: {} bytes {:02x?}..",
+                                    P::NAME,
+                                    side,
+                                    idx,
+                                    self.submitted_vital[from].len(),
+                                    data.len(),
+                                    &data[..data.len().min(9)]
+                                ),
+                            );
+                        }
+                    }
+                }
+                Ev::Chunk(data, false) => {
+                    if !self.submitted_nonvital[from].contains(data) {
+                        return fail(
+                            "nonvital_member",
+                            format!(
+                                "{}: side {} received a non-vital chunk that was never sent: {} bytes {:02x?}..",
+                                P::NAME,
+                                side,
+                                data.len(),
+                                &data[..data.len().min(9)]
+                            ),
+                        );
+                    }
+                    self.stats.nonvital_delivered += 1;
+                }
+                Ev::Ready => {
+                    self.ready_seen += 1;
+                    self.stats.ready += 1;
+                    if side != 0 || !self.connect_called {
+                        return fail("ready", format!("{}: Ready reported on side {} which did not connect", P::NAME, side));
+                    }
+                    if self.ready_seen > 1 {
+                        return fail("ready", format!("{}: the connecting side was told Ready {} times", P::NAME, self.ready_seen));
+                    }
+                    if !self.acceptor_sent {
+                        return fail("ready", format!("{}: Ready before the accepting side sent anything", P::NAME));
+                    }
+                }
+                Ev::Connless(d) => {
+                    self.stats.connless_delivered += 1;
+                    let _ = d;
+                }
+                Ev::Disconnect(_) => {
+                    self.stats.disconnects += 1;
+                }
+            }
+            self.events[side].push(e);
+        }
+        Ok(())
+    }
+
+    pub fn step(&mut self, op: &Op) -> StepResult {
+        self.expire();
+        let applied = self.step_inner(op)?;
+        if applied {
+            self.stats.ops_applied += 1;
+        } else {
+            self.stats.ops_skipped += 1;
+        }
+        Ok(())
+    }
+
+    fn step_inner(&mut self, op: &Op) -> Result<bool, Failure> {
+        match *op {
+            Op::Connect => {
+                if self.state(0) != "Unconnected" || self.state(1) != "Unconnected" {
+                    return Ok(false);
+                }
+                self.connect_called = true;
+                self.stats.sessions += 1;
+                self.call(0, "connect", |c, cb| P::connect(c, cb))?;
+                Ok(true)
+            }
+            Op::Send { side, vital, len, fill } => self.do_send(side as usize & 1, vital, len as usize, fill),
+            Op::Flush { side } => {
+                let side = side as usize & 1;
+                if !self.online(side) {
+                    return Ok(false);
+                }
+                self.call(side, "flush", |c, cb| P::flush(c, cb))?;
+                Ok(true)
+            }
+            Op::Tick { side } => {
+                let side = side as usize & 1;
+                let before = self.stats.datagrams;
+                let had_unacked = P::summary(&self.ends[side]).1 > 0;
+                self.call(side, "tick", |c, cb| P::tick(c, cb))?;
+                if had_unacked && self.stats.datagrams > before {
+                    self.stats.resend_datagrams += self.stats.datagrams - before;
+                }
+                Ok(true)
+            }
+            Op::Advance { dt } => {
+                self.now_us += DT_US[dt as usize % DT_US.len()];
+                Ok(true)
+            }
+            Op::Deliver { dir, k } => {
+                let dir = dir as usize & 1;
+                if self.net[dir].is_empty() {
+                    return Ok(false);
+                }
+                let k = crate::pick(k, self.net[dir].len());
+                self.deliver(dir, k)?;
+                Ok(true)
+            }
+            Op::Drop { dir, k } => {
+                let dir = dir as usize & 1;
+                if self.net[dir].is_empty() {
+                    return Ok(false);
+                }
+                let k = crate::pick(k, self.net[dir].len());
+                self.note_fault(dir, k);
+                self.stats.drops += 1;
+                self.net[dir].remove(k);
+                Ok(true)
+            }
+            Op::Dup { dir, k } => {
+                let dir = dir as usize & 1;
+                if self.net[dir].is_empty() || self.net[dir].len() > 600 {
+                    return Ok(false);
+                }
+                let k = crate::pick(k, self.net[dir].len());
+                self.note_fault(dir, k);
+                self.stats.dups += 1;
+                let f = self.net[dir][k].clone();
+                self.net[dir].push(f);
+                Ok(true)
+            }
+            Op::DeliverAll { dir } => {
+                let dir = dir as usize & 1;
+                let mut n = 0;
+                while !self.net[dir].is_empty() && n < 2000 {
+                    self.deliver(dir, 0)?;
+                    n += 1;
+                }
+                Ok(n > 0)
+            }
+            Op::Burst { side, n } => {
+                let side = side as usize & 1;
+                if !self.online(side) || !self.online(1 - side) {
+                    return Ok(false);
+                }
+                let n = (n as usize).min(300);
+                for i in 0..n {
+                    if !self.do_send(side, true, 8 + (i % 3), i as u8)? {
+                        break;
+                    }
+                    if !self.online(side) {
+                        break;
+                    }
+                    self.call(side, "flush", |c, cb| P::flush(c, cb))?;
+                    while !self.net[side].is_empty() {
+                        self.deliver(side, 0)?;
+                    }
+                }
+                // acknowledgement travels back on a non-vital chunk
+                if self.online(1 - side) {
+                    self.do_send(1 - side, false, 9, 0xAC)?;
+                    if self.online(1 - side) {
+                        self.call(1 - side, "flush", |c, cb| P::flush(c, cb))?;
+                    }
+                    while !self.net[1 - side].is_empty() {
+                        self.deliver(1 - side, 0)?;
+                    }
+                }
+                Ok(true)
+            }
+            Op::Disconnect { side, reason_len } => {
+                let side = side as usize & 1;
+                if self.state(side) == "Disconnected" || self.state(side) == "Unconnected" {
+                    return Ok(false);
+                }
+                let reason: Vec<u8> = (0..reason_len.min(127)).map(|i| b'a' + (i % 26)).collect();
+                self.call(side, "disconnect", |c, cb| P::disconnect(c, cb, &reason))?;
+                Ok(true)
+            }
+            Op::SendConnless { side, len } => {
+                let side = side as usize & 1;
+                if !self.online(side) {
+                    return Ok(false);
+                }
+                let len = (len as usize).min(1390);
+                let payload = self.make_payload(side, false, len, 0x11);
+                let r = self.call(side, "send_connless", |c, cb| P::send_connless(c, cb, &payload))?;
+                if r == SendResult::Ok {
+                    self.submitted_connless[side].insert(payload);
+                }
+                Ok(true)
+            }
+            Op::Reset => {
+                let ok = |s: &str| s == "Disconnected" || s == "Unconnected";
+                if !(ok(self.state(0)) && ok(self.state(1))) || !self.connect_called {
+                    return Ok(false);
+                }
+                for side in 0..2 {
+                    if self.state(side) == "Disconnected" {
+                        let conn = &mut self.ends[side];
+                        if let Err(p) = guard(|| P::reset(conn)) {
+                            return fail("panic", format!("{} reset: {}", P::NAME, p));
+                        }
+                    }
+                    self.net[side].clear();
+                    // a new session: what was submitted but not delivered before is gone
+                    self.delivered_vital[side] = self.submitted_vital[side].len();
+                    self.session_vital_base[side] = self.submitted_vital[side].len();
+                }
+                self.ready_seen = 0;
+                self.acceptor_sent = false;
+                self.connect_called = false;
+                Ok(true)
+            }
+        }
+    }
+
+    /// Is everything delivered, acknowledged and flushed (the goal of the fair suffix)?
+    pub fn quiescent(&self) -> bool {
+        for s in 0..2 {
+            let (_, unacked, queued, rr) = P::summary(&self.ends[s]);
+            if unacked != 0 || queued != 0 || rr {
+                return false;
+            }
+            if self.delivered_vital[s] != self.submitted_vital[s].len() {
+                return false;
+            }
+            if !self.net[s].is_empty() {
+                return false;
+            }
+        }
+        if self.connect_called && self.ready_seen == 0 {
+            return false;
+        }
+        true
+    }
+
+    /// Session still alive on both sides (liveness claims only make sense then)?
+    pub fn alive(&self) -> bool {
+        let dead = |s: &str| s == "Disconnected" || s == "Unconnected";
+        self.connect_called && !dead(self.state(0)) && !dead(self.state(1))
+    }
+
+    /// The fair scheduler of C02: each round delivers every in-flight datagram once (FIFO), then each
+    /// side ticks if its reported deadline has passed, otherwise the clock jumps to the earliest
+    /// deadline. Returns the number of rounds used, or None if not quiescent after `max_rounds`.
+    pub fn fair_suffix(&mut self, max_rounds: usize) -> Result<Option<usize>, Failure> {
+        for round in 0..max_rounds {
+            if self.quiescent() {
+                return Ok(Some(round));
+            }
+            for dir in 0..2 {
+                let batch: Vec<Flight> = std::mem::take(&mut self.net[dir]);
+                for f in batch {
+                    self.feed(1 - dir, &f.data)?;
+                }
+            }
+            let mut ticked = false;
+            for side in 0..2 {
+                if let Some(t) = P::needs_tick(&self.ends[side]).to_opt() {
+                    if t.as_usecs_since_epoch() <= self.now_us {
+                        self.call(side, "tick", |c, cb| P::tick(c, cb))?;
+                        ticked = true;
+                    }
+                }
+            }
+            if !ticked && self.net[0].is_empty() && self.net[1].is_empty() {
+                match self.earliest_deadline() {
+                    Some(t) if t > self.now_us => self.now_us = t,
+                    Some(_) => {}
+                    None => {
+                        return Ok(if self.quiescent() { Some(round + 1) } else { None });
+                    }
+                }
+            }
+        }
+        Ok(if self.quiescent() { Some(max_rounds) } else { None })
+    }
+
+    /// Independent copy of the whole simulation (uses the clone hook).
+    pub fn snapshot(&self) -> Sim<P> {
+        Sim {
+            ends: [P::clone_conn(&self.ends[0]), P::clone_conn(&self.ends[1])],
+            cb: self.cb.clone(),
+            now_us: self.now_us,
+            net: self.net.clone(),
+            strip_token: self.strip_token,
+            submitted_vital: self.submitted_vital.clone(),
+            submitted_nonvital: self.submitted_nonvital.clone(),
+            submitted_connless: self.submitted_connless.clone(),
+            delivered_vital: self.delivered_vital,
+            ready_seen: self.ready_seen,
+            acceptor_sent: self.acceptor_sent,
+            connect_called: self.connect_called,
+            serial: self.serial,
+            send_serial: self.send_serial,
+            stats: self.stats.clone(),
+            sent_log: Vec::new(),
+            log_sent: self.log_sent,
+            max_len: self.max_len,
+            max_unacked: self.max_unacked,
+            max_queued: self.max_queued,
+            session_vital_base: self.session_vital_base,
+            events: [Vec::new(), Vec::new()],
+            warnings: Vec::new(),
+        }
+    }
+
+    /// Earliest active deadline over both sides.
+    pub fn earliest_deadline(&self) -> Option<u64> {
+        (0..2)
+            .filter_map(|s| P::needs_tick(&self.ends[s]).to_opt())
+            .map(|t| t.as_usecs_since_epoch())
+            .min()
+    }
+}
+
+/// (carries a vital chunk, is a handshake control message) for a datagram written by the library.
+pub fn classify<P: Proto>(d: &[u8]) -> (bool, bool) {
+    let mut buf = [0u8; 2048];
+    let mut w = Warnings::new();
+    if P::IS7 {
+        use libtw2_net::protocol7::*;
+        match Packet::read(&mut w, d, &mut buf[..]) {
+            Ok(Packet::Connected(ConnectedPacket { type_: ConnectedPacketType::Chunks(_, n, data), .. })) => {
+                (ChunksIter::new(data, n).any(|c| c.vital.is_some()), false)
+            }
+            Ok(Packet::Connected(ConnectedPacket { type_: ConnectedPacketType::Control(c), .. })) => {
+                (false, !matches!(c, ControlPacket::KeepAlive | ControlPacket::Close(_)))
+            }
+            _ => (false, false),
+        }
+    } else {
+        use libtw2_net::protocol::*;
+        match Packet::read(&mut w, d, None, &mut buf[..]) {
+            Ok(Packet::Connected(ConnectedPacket { type_: ConnectedPacketType::Chunks(_, n, data), .. })) => {
+                (ChunksIter::new(data, n).any(|c| c.vital.is_some()), false)
+            }
+            Ok(Packet::Connected(ConnectedPacket { type_: ConnectedPacketType::Control(c), .. })) => {
+                (false, !matches!(c, ControlPacket::KeepAlive | ControlPacket::Close(_)))
+            }
+            _ => (false, false),
+        }
+    }
+}
+
+// ---------------------------------------------------------------------------
+// Strategies
+
+use proptest::prelude::*;
+
+pub fn len_strategy(max: usize) -> BoxedStrategy<u16> {
+    let max = max as u16;
+    prop_oneof![
+        4 => 8u16..40,
+        2 => 0u16..=max,
+        2 => prop_oneof![Just(0u16), Just(1), Just(7), Just(8), Just(15), Just(16), Just(17), Just(63), Just(64), Just(255), Just(256)],
+        2 => (0u16..6).prop_map(move |d| max - d),
+        1 => 300u16..700,
+    ]
+    .boxed()
+}
+
+pub fn op_strategy(max_len: usize) -> BoxedStrategy<Op> {
+    let side = 0u8..2;
+    prop_oneof![
+        1 => Just(Op::Connect),
+        10 => (0u8..2, prop::bool::weighted(0.7), len_strategy(max_len), any::<u8>())
+            .prop_map(|(side, vital, len, fill)| Op::Send { side, vital, len, fill }),
+        5 => side.clone().prop_map(|side| Op::Flush { side }),
+        5 => side.clone().prop_map(|side| Op::Tick { side }),
+        4 => (0u8..10).prop_map(|dt| Op::Advance { dt }),
+        8 => (0u8..2, prop_oneof![3 => Just(0u16), 1 => any::<u16>()]).prop_map(|(dir, k)| Op::Deliver { dir, k }),
+        2 => (0u8..2, any::<u16>()).prop_map(|(dir, k)| Op::Drop { dir, k }),
+        2 => (0u8..2, any::<u16>()).prop_map(|(dir, k)| Op::Dup { dir, k }),
+        3 => side.clone().prop_map(|dir| Op::DeliverAll { dir }),
+        1 => (0u8..2, prop_oneof![3 => 1u16..40, 1 => 200u16..300]).prop_map(|(side, n)| Op::Burst { side, n }),
+    ]
+    .boxed()
+}
+
+/// A history: a handshake prelude (usually) followed by generated ops.
+pub fn history_strategy(max_len: usize, max_ops: usize, with_session_ops: bool) -> BoxedStrategy<Vec<Op>> {
+    let ops = if with_session_ops {
+        prop_oneof![
+            60 => op_strategy(max_len),
+            1 => (0u8..2, 0u8..=127).prop_map(|(side, reason_len)| Op::Disconnect { side, reason_len }),
+            1 => Just(Op::Reset),
+            1 => (0u8..2, 0u16..1391).prop_map(|(side, len)| Op::SendConnless { side, len }),
+        ]
+        .boxed()
+    } else {
+        op_strategy(max_len)
+    };
+    (prop::bool::weighted(0.85), proptest::collection::vec(ops, 0..max_ops))
+        .prop_map(|(prelude, mut v)| {
+            if prelude {
+                let mut p = handshake_prelude();
+                p.append(&mut v);
+                p
+            } else {
+                v.insert(0, Op::Connect);
+                v
+            }
+        })
+        .boxed()
+}
+
+/// Ops that complete a handshake on a well-behaved network and bring both sides online
+/// (the acceptor goes online with the first chunk packet it receives).
+pub fn handshake_prelude() -> Vec<Op> {
+    let mut v = vec![Op::Connect];
+    for _ in 0..3 {
+        v.push(Op::DeliverAll { dir: 0 });
+        v.push(Op::DeliverAll { dir: 1 });
+    }
+    v.push(Op::Send { side: 0, vital: true, len: 12, fill: 1 });
+    v.push(Op::Flush { side: 0 });
+    v.push(Op::DeliverAll { dir: 0 });
+    v
+}
+
+#[derive(Clone, Copy, Debug, PartialEq, Eq, Hash, Serialize, Deserialize)]
+pub enum Variant {
+    V6Token,
+    V6NoToken,
+    V7,
+}
+
+pub const VARIANTS: [Variant; 3] = [Variant::V6Token, Variant::V6NoToken, Variant::V7];
+
+impl Variant {
+    pub fn name(self) -> &'static str {
+        match self {
+            Variant::V6Token => "v6token",
+            Variant::V6NoToken => "v6notoken",
+            Variant::V7 => "v7",
+        }
+    }
+}
